@@ -29,6 +29,13 @@ def check(run: Run) -> None:
     reindex_rules(run, model, dict(order="C13.R6", ack="C13.R2", recover="C13.R6"))
     writeback_rules(run, model, "C13.R2")
     create_rules(run, model, "C13.R6")
+    run.rule("C13.R7", "a re-run after a kill between the commit of a stamped page and its write-back re-stamps the note from the file's (unstamped) line without losing a word: "
+                       "the stamp-table obligations of C11.R1 / C11.R6 (incl. the 'stamped in the index only' valuations), adopted")
+    from ..indexing import stamp_table
+
+    sub = Run("C11", run.tier, run.repo)
+    stamp_table(sub, model, "C11.R1")
+    run.floor("adopted stamp-table obligations", run.adopt(sub, ("C11.R1", "C11.R6"), "C13.R7"), 40)
     ack_before_writeback(run, model, eff, "C13.R3")
     page_then_hashmap(run, model, eff, "C13.R4")
     commit_sites(run, model, eff, "C13.R5")
